@@ -73,10 +73,24 @@ def rot(U, k=1):
     return (S[(S.index(U[0]) + 3 * k) % len(S)], T[(T.index(U[1]) + 2 * k) % len(T)], Q[(Q.index(U[2]) + 4 * k) % len(Q)])
 
 
-def build_dict(gtype, level, U, default_state=False):
-    """System dictionary physically equal to BASE, with U declared at `level`."""
+KINDS = ("space", "time", "quantity")
+
+
+def partial_dict(X, missing):
+    """Units dictionary of system X without the keys listed in `missing` whose unit is the documented default of that key
+    (json_and_dict_doc.rst, "Units system": "space" default "µm", "time" default "s", "quantity" default "molecule")."""
+    return {k: X[i] for i, k in enumerate(KINDS) if not (k in missing and X[i] == D[i])}
+
+
+def build_dict(gtype, level, U, default_state=False, missing=(), hist=False):
+    """System dictionary physically equal to BASE, with U declared at `level`.  `missing`: keys left out of the emitted
+    units dictionaries where the unit is the default one; `hist`: a level without a declaration of its own says
+    "units": "default" (documented: 'Apply the default unit system') instead of spelling the default dictionary."""
     U = tuple(U)
-    ud = uq.sysdict(U)
+
+    def sysdict(X):
+        return partial_dict(tuple(X), missing) if missing else uq.sysdict(X)
+    ud = sysdict(U)
     explicit = (level == "explicit")
     # unit system governing each part
     g = {"system": D, "network": D, "space": D, "species": [D, D, D], "reaction": [D, D, D, D], "node": [D, D, D], "edge": [D, D]}
@@ -108,20 +122,20 @@ def build_dict(gtype, level, U, default_state=False):
         W = rot(U, 2)
         for k in g:
             g[k] = U if not isinstance(g[k], list) else [U] * len(g[k])
-        decl = {"system": uq.sysdict(W), "network": uq.sysdict(rot(W)), "space": uq.sysdict(rot(W, 2))}
+        decl = {"system": sysdict(W), "network": sysdict(rot(W)), "space": sysdict(rot(W, 2))}
     sp = []
     for i, s in enumerate(BASE["species"]):
         d = {"label": s["label"], "D": num(s["D"], g["species"][i], DIM["D"], explicit),
              "density": num(s["density"], g["species"][i], DIM["density"], explicit)}
-        if level == "species" and g["species"][i] != D:
-            d[UKEYS[i % 4]] = uq.sysdict(g["species"][i])
+        if level == "species" and (g["species"][i] != D or (hist and U == D and i == 0)):
+            d[UKEYS[i % 4]] = sysdict(g["species"][i])
         sp.append(d)
     rx = []
     for i, r in enumerate(BASE["reactions"]):
         d = {"eq": r["eq"], "k+": num(r["kf"], g["reaction"][i], kdim(r["orders"][0]), explicit),
              "k-": num(r["kr"], g["reaction"][i], kdim(r["orders"][1]), explicit)}
-        if level == "reaction" and g["reaction"][i] != D:
-            d[UKEYS[(i + 1) % 4]] = uq.sysdict(g["reaction"][i])
+        if level == "reaction" and (g["reaction"][i] != D or (hist and U == D and i in (0, 3))):
+            d[UKEYS[(i + 1) % 4]] = sysdict(g["reaction"][i])
         rx.append(d)
     net = {"species": sp, "reactions": rx, "environments": list(BASE["envs"])}
     if "network" in decl:
@@ -137,14 +151,14 @@ def build_dict(gtype, level, U, default_state=False):
         for i, (v, e) in enumerate(b["nodes"]):
             d = {"volume": num(v, g["node"][i], DIM["vol"], explicit), "environment": e}
             if level == "node" and g["node"][i] != D:
-                d[UKEYS[(i + 2) % 4]] = uq.sysdict(g["node"][i])
+                d[UKEYS[(i + 2) % 4]] = sysdict(g["node"][i])
             nodes.append(d)
         edges = []
         for i, (a, c, s, dd) in enumerate(b["edges"]):
             d = {"nodes": [a, c], "surface": num(s, g["edge"][i], DIM["sfc"], explicit),
                  "distance": num(dd, g["edge"][i], DIM["dst"], explicit)}
             if level == "edge" and g["edge"][i] != D:
-                d[UKEYS[(i + 3) % 4]] = uq.sysdict(g["edge"][i])
+                d[UKEYS[(i + 3) % 4]] = sysdict(g["edge"][i])
             edges.append(d)
         space = {"type": "graph", "nodes": nodes, "edges": edges}
     if "space" in decl:
@@ -153,7 +167,8 @@ def build_dict(gtype, level, U, default_state=False):
         state = {"value": [x * fac(U, DIM["amount"]) for x in BASE["state"]], "units": si.units_string(U, DIM["amount"])}
     else:
         state = [x * fac(g["system"], DIM["amount"]) for x in BASE["state"]]
-    sysd = {"network": net, "space": space, "state": state, "units": decl.get("system", uq.sysdict(D))}
+    sysd = {"network": net, "space": space, "state": state,
+            "units": decl.get("system", "default" if hist else sysdict(D))}
     if default_state:
         del sysd["state"]        # initial state generated from density x volume
     return sysd
@@ -231,7 +246,198 @@ def cmp_lists(tag, names, got, ref, out, scale=None):
             return
 
 
+# ---------------------------------------------------------------------------------------------------------------------
+# process histories: partial units dictionaries evaluated after other units have been used in the same process
+#
+# json_and_dict_doc.rst, "Units system": each of the keys "space" / "time" / "quantity" of a units dictionary has a default
+# ("µm" / "s" / "molecule").  A description whose units dictionary leaves a key out is therefore the same physical system
+# as the one that spells the default unit -- whatever was built or parsed before in the same process.
+
+MISSING = [["space"], ["time"], ["quantity"], ["space", "time"], ["space", "quantity"], ["time", "quantity"],
+           ["space", "time", "quantity"]]
+H_LEVELS = {"grid": ["system", "network", "space", "species", "reaction", "script"],
+            "graph": ["system", "network", "species", "reaction", "script"]}     # where the documentation has a "units" entry
+H_W = [("nm", "ms", "nmol"), ("m", "min", "mol"), ("km", "h", "kmol"), ("fm", "fs", "fmol")]
+# "polluting" descriptions (physically equal to BASE as well, so they are checked too) and pure parses
+POLLUTERS = [
+    {"level": "system", "U": ["µm", "min", "molecule"], "missing": ["space", "quantity"]},      # "units": {"time": "min"}
+    {"level": "system", "U": ["nm", "ms", "fmol"], "missing": []},                               # complete nm / ms / fmol
+    {"level": "explicit", "U": ["mm", "h", "mol"], "missing": []},                               # explicit unit strings
+    {"level": "species", "U": ["dm", "cs", "µmol"], "missing": []},                              # complete, at species level
+    {"parse": ["km/h", "pmol", "fL"]},                                                          # quantities with explicit units
+]
+
+
+def script_dict(gtype, U, missing):
+    U = tuple(U)
+    f_t = fac(U, DIM["time"])
+    return {"system": build_dict(gtype, "system", D, hist=True), "t_sample": [0], "time_step": DT * f_t,
+            "t_max": (NSTEPS - 0.5) * DT * f_t, "sampling_policy": "on_iteration",
+            "units": partial_dict(U, missing) if missing else uq.sysdict(U), "rng_seed": 1}
+
+
+def h_build(gtype, desc):
+    if "parse" in desc:
+        for u in desc["parse"]:
+            UnitValue(1.5, u)
+            UnitArray([1.0, 2.0], u)
+        return None
+    if desc["level"] == "base":
+        return rdsystem_from_dict(build_dict(gtype, "system", D))
+    if desc["level"] == "script":
+        return rdscript_from_dict(script_dict(gtype, desc["U"], desc["missing"]))
+    return rdsystem_from_dict(build_dict(gtype, desc["level"], tuple(desc["U"]), missing=tuple(desc["missing"]), hist=True))
+
+
+def _run_script(script):
+    traj, nit = eng.run_to_completion(eng.make_engine("euler"), script, max_iter=50)
+    t = [float(x) for x in uq.si_value(traj.t)]
+    d = [float(x) for x in uq.si_value(traj.data)]
+    return t, d, [list(uq.sys_of(traj.t.units)), list(uq.sys_of(traj.data.units))]
+
+
+def h_observe(gtype, desc, obj):
+    if "parse" in desc:
+        return None
+    if desc["level"] == "script":
+        t, d, meta = _run_script(obj)
+        return {"t": t, "d": d, "meta": meta}
+    U = D if desc["level"] == "base" else tuple(desc["U"])
+    p = params_si(obj)
+    res = {"p": [(n, v) for n, v in p]}
+    if desc.get("rate") or desc["level"] == "base":      # (the pure-Python kinetics takes ~0.1 s: on a sub-family only)
+        f = kinetics.compute_dstatedt(obj, units_system=uq.mk_sys(U))
+        res["f"] = [float(x) for x in uq.si_value(f)]
+    res["t"], res["d"], meta = euler_run(obj, U)
+    return res
+
+
+def history(gtype, steps_json):
+    """Runs in a pristine process: every description is built, in order; then every one is observed."""
+    import json
+    steps = json.loads(steps_json)
+    objs = []
+    for desc in steps:
+        try:
+            objs.append(("ok", h_build(gtype, desc)))
+        except Exception as e:
+            objs.append(("exception", "building: %s: %s" % (type(e).__name__, e)))
+    res = []
+    for desc, (st, o) in zip(steps, objs):
+        if st != "ok" or not desc.get("observe", True):
+            res.append((st, o if st != "ok" else None))
+            continue
+        try:
+            res.append(("ok", h_observe(gtype, desc, o)))
+        except Exception as e:
+            res.append(("exception", "observing: %s: %s" % (type(e).__name__, e)))
+    return res
+
+
+_PRIS = {}
+_HBASE = {}
+
+
+def _pristine_call(gtype, steps):
+    import json
+    import os
+    from mc import pristine
+    z = _PRIS.get(os.getpid())
+    if z is None:
+        _PRIS.clear()
+        _HBASE.clear()
+        z = pristine.Pristine(timeout=120.0)
+        _PRIS[os.getpid()] = z
+    return z.call("checks.c04_units_invariance", "history", gtype, json.dumps(steps))
+
+
+def _describe(desc):
+    if "parse" in desc:
+        return "quantities parsed with units %r" % (desc["parse"],)
+    U = tuple(desc["U"])
+    if desc["level"] == "explicit":
+        return "description with explicit unit strings in %r" % (U,)
+    return "\"units\": %r at %s level" % (partial_dict(U, desc["missing"]) if desc["missing"] else uq.sysdict(U), desc["level"])
+
+
+def check_history(case):
+    """The descriptions of case["steps"] built one after the other in one pristine process: each observed one must have the
+    physical content of the fully spelled base description (itself evaluated alone in a pristine process)."""
+    out = []
+    gtype = case["gtype"]
+    if gtype not in _HBASE:
+        _HBASE[gtype] = _pristine_call(gtype, [{"level": "base"}])
+    st, r = _HBASE[gtype]
+    if st != "ok" or r[0][0] != "ok":
+        return [("C04:history:base:pristine-%s" % (st if st != "ok" else r[0][0]), str(r)[:600])]
+    base = r[0][1]
+    st, res = _pristine_call(gtype, case["steps"])
+    if st != "ok":
+        return [("C04:history:%s:%s:pristine-%s" % (case["level"], gtype, st), str(res)[:600])]
+    story = "; then ".join(_describe(d) for d in case["steps"])
+    for k, (desc, (st, obs)) in enumerate(zip(case["steps"], res)):
+        if "parse" in desc and st == "ok":
+            continue
+        level = desc.get("level", "parse")
+        tag = "history:%s:%s" % (level, gtype)
+        where = "[process history: %s] description %d (%s)" % (story, k + 1, _describe(desc))
+        if st != "ok":
+            out.append(("C04:%s:unexpected-exception" % tag, "%s: %s" % (where, obs)))
+            continue
+        if obs is None:
+            continue
+        before = len(out)
+        if "p" in obs:
+            bp = base["p"]
+            if [n for n, _ in obs["p"]] != [n for n, _ in bp]:
+                out.append(("C04:%s:structure" % tag, "%s: parameter list differs from the base system" % where))
+                continue
+            for (n, v), (_, r0) in zip(obs["p"], bp):
+                if (r0 == 0 and v != 0) or (r0 != 0 and abs(v / r0 - 1) > TOL):
+                    out.append(("C04:%s:parameter:%s" % (tag, n.split("(")[0]),
+                                "%s: %s = %.17g SI, base description %.17g SI" % (where, n, float(v), float(r0))))
+                    break
+            if len(out) > before:
+                continue
+            if "f" in obs:
+                cmp_lists("%s:rate-of-change" % tag, None, obs["f"], base["f"], out, scale=max(abs(x) for x in base["f"]))
+        else:
+            expU = tuple(desc["U"])
+            if obs["meta"][0][1] != expU[1] or obs["meta"][1][2] != expU[2]:
+                out.append(("C04:%s:output-units" % tag, "%s: trajectory reported in %r / %r, script units system is %r"
+                            % (where, obs["meta"][0], obs["meta"][1], expU)))
+        cmp_lists("%s:trajectory-times" % tag, None, obs["t"], base["t"], out)
+        cmp_lists("%s:trajectory-data" % tag, None, obs["d"], base["d"], out, scale=max(abs(x) for x in base["d"]))
+        for i in range(before, len(out)):
+            if not out[i][1].startswith("[process history"):
+                out[i] = (out[i][0], "%s: %s" % (where, out[i][1]))
+    return out
+
+
+def gen_history(tier):
+    Ws = H_W[:1] if tier == "quick" else H_W
+    for gtype in ("grid", "graph"):
+        for level in H_LEVELS[gtype]:
+            for W in Ws:
+                for missing in MISSING:
+                    U = [D[i] if k in missing else W[i] for i, k in enumerate(KINDS)]
+                    X = {"level": level, "U": U, "missing": missing}
+                    Xr = dict(X, rate=True) if (len(missing) == 1 and level != "script") else X     # + compute_dstatedt
+                    base = {"hist": True, "gtype": gtype, "level": level, "U": U, "missing": missing}
+                    # the partial description first in a pristine process
+                    yield dict(base, order="alone", steps=[Xr])
+                    for pi, P in enumerate(POLLUTERS):
+                        # polluter, then the partial description (the polluter alone in a pristine process is the same for
+                        # every partial form: not observed again here)
+                        yield dict(base, order="after", polluter=pi, steps=[dict(P, observe=False), Xr if pi == 0 else X])
+                        if "parse" not in P:
+                            # the partial description, then the polluter: both observed after both were built
+                            yield dict(base, order="before", polluter=pi, steps=[X, P])
+
+
 def check_case(case):
+    if case.get("hist"):
+        return check_history(case)
     out = []
     gtype, level, U = case["gtype"], case["level"], tuple(case["U"])
     try:
@@ -340,10 +546,57 @@ def _work(job):
     return acc.pack()
 
 
+_HCASES = None
+
+
+def _work_hist(job):
+    """History cases: this worker does nothing with the library itself (its zygote must stay pristine); everything runs in
+    forked grand-children and only plain numbers are compared here."""
+    lo, hi = job
+    acc = core.Acc()
+    for case in _HCASES[lo:hi]:
+        try:
+            res = check_history(case)
+        except Exception as e:
+            res = [("C04:history:checker:exception", "%s: %s" % (type(e).__name__, e))]
+        nobs = sum(1 for d in case["steps"] if "parse" not in d and d.get("observe", True))
+        acc.add(states=1, transitions=len(case["steps"]) + nobs, traces=nobs, evaluations=nobs,
+                nontrivial=1 if case["order"] != "alone" else 0)
+        acc.count("history_cases:" + case["order"])
+        acc.count("history_cases_level:" + case["level"])
+        for key, what in res:
+            acc.violation(key, what, case)
+    if lo == 0:
+        acc.sample(_HCASES[min(len(_HCASES) - 1, 3)])
+        c = _HCASES[min(len(_HCASES) - 1, 3)]
+        acc.sample({"example_history_dictionary": build_dict(c["gtype"], c["level"], tuple(c["U"]), missing=tuple(c["missing"]), hist=True)})
+    return acc.pack()
+
+
 def run(ctx):
-    global _CASES
+    global _CASES, _HCASES
     _CASES = list(gen_cases(ctx.tier))
+    _HCASES = list(gen_history(ctx.tier))
     eng.so_path("plain")
+    # phase 1: process histories, on fresh workers whose zygotes have not used the library
+    hjobs = pool.chunks(len(_HCASES), 8)
+    hdone = 0
+    for job, r in zip(hjobs, pool.pmap(_work_hist, hjobs, timeout=600)):
+        if isinstance(r, pool.Crash):
+            c = _HCASES[job[0]]
+            ctx.violation("C04:history:%s:%s:engine-or-checker-%s" % (c["level"], c["gtype"], r.kind), r.detail[-1500:], c)
+            continue
+        core.merge(ctx, r)
+        hdone += job[1] - job[0]
+    ctx.subspace("process histories (each in a pristine forked process): partial units dictionaries (each single key and each "
+                 "pair of keys left out, and the empty dictionary; the present keys from %s) declared at {grid: system, network, "
+                 "space, species, reaction, script; graph: system, network, species, reaction, script} level x {alone; after each "
+                 "of %d polluters (a {'time': 'min'} system, a complete nm/ms/fmol system, explicit mm/h/mol strings, complete "
+                 "dm/cs/µmol species dictionaries, parsed km/h, pmol, fL quantities); before each of the 4 polluting descriptions "
+                 "(both then observed)}: parameters, state, Euler trajectory (and, for the single-key forms alone / after the first "
+                 "polluter, the rate of change) equal those of the fully spelled "
+                 "base description evaluated alone" % ("nm/ms/nmol" if ctx.tier == "quick" else "4 unit systems", len(POLLUTERS)),
+                 len(_HCASES), hdone, exhaustive=(hdone == len(_HCASES)))
     done = 0
     for job, r in pool.pmap_split(_work, len(_CASES), 40, timeout=300):
         if isinstance(r, pool.Crash) and r.kind == "skipped":
@@ -364,6 +617,8 @@ def run(ctx):
              "each case builds the re-scaled description through rdsystem_from_dict / rdscript_from_dict, compares every physical "
              "parameter and the state in SI with the base description, runs 4 Euler steps (output requested in U) and, for the "
              "36-system sub-lattice, compute_dstatedt")
+    ctx.rule("history cases: one per (space type, level, partial dictionary, order, polluter); non-trivial = something else was "
+             "built or parsed in the same process; missing keys mean the documented defaults (json_and_dict_doc.rst, Units system)")
     ctx.assume("exact rational unit factors (mc/ref/si.py) rounded once to double; tolerance 1e-9 relative; the nested system "
                "always carries an explicit declaration (script-to-system inheritance is not claimed, DESIGN C04)")
 
